@@ -22,6 +22,13 @@ package dkg
 //   conc – the message is delivered by two threads at once; the interleavings of the two calls are enumerated
 //          by schedx (dkg/frostp2p.go is built with the vsync lock shim: every lock acquisition and every
 //          unlock of the callbacks is a scheduling point).
+// Beside the deviations there is the family
+//   hist – cross-round delivery histories of ONE victim recipient, enumerated from scratch (not as deviations
+//          from a default): a first-delivery order of its 3(n-1) messages (every interleaving of the senders'
+//          message streams: glued / p2pfirst / fifo, or every permutation: perm) x up to k re-deliveries of the
+//          same signed bytes, each copy at every position after the first delivery of that message - a sender's
+//          round 1 broadcast again after its round 2 broadcast, the round 2 broadcast again after that, ... while
+//          the victim still waits for another peer's message. The other recipients get the default delivery.
 // One ceremony = one testing/synctest bubble: after every delivery the controller waits for quiescence
 // (synctest.Wait), so arrival orders are exactly the prescribed ones and a ceremony that cannot complete is
 // recognised without a timer.
@@ -82,8 +89,9 @@ type c11Dev struct {
 }
 
 type c11Item struct {
-	Kind, From int
-	Copy       bool // a repeated delivery of the same bytes
+	Kind int  `json:"kind"` // 0 = round 1 broadcast, 1 = round 1 p2p shares, 2 = round 2 broadcast
+	From int  `json:"from"`
+	Copy bool `json:"again,omitempty"` // a repeated delivery of the same bytes
 }
 
 func (it c11Item) String() string {
@@ -143,6 +151,15 @@ func c11Lists(c c11Case) (lists [][]c11Item, conc *c11Dev, err error) {
 	lists = make([][]c11Item, c.N)
 	for r := range lists {
 		lists[r] = c11BaseList(c.N, r, c.Base)
+	}
+	if c.Hist != nil {
+		if len(c.Devs) > 0 {
+			return nil, nil, fmt.Errorf("a history and deviations in one case: %+v", c)
+		}
+		if err := c11HistValid(c.N, c.Hist); err != nil {
+			return nil, nil, err
+		}
+		lists[c.Hist.To] = append([]c11Item(nil), c.Hist.List...)
 	}
 	for k, d := range c.Devs {
 		if d.To < 0 || d.To >= c.N {
@@ -238,6 +255,10 @@ func (c c11Case) tpString() string {
 	for _, d := range c.Devs {
 		touched[d.To] = true
 	}
+	if c.Hist != nil {
+		s += fmt.Sprintf(" history (first-delivery order %q + %d re-deliveries), the other nodes default delivery;", c.Hist.Order, c11Copies(c.Hist.List))
+		touched[c.Hist.To] = true
+	}
 	var rs []int
 	for r := range touched {
 		rs = append(rs, r)
@@ -254,7 +275,7 @@ func (c c11Case) tpString() string {
 	if conc != nil {
 		s += fmt.Sprintf("; %v is delivered to node %d by two threads at once, interleaving %v", lists[conc.To][conc.I], conc.To, c.Choices)
 	}
-	if len(c.Devs) == 0 {
+	if len(c.Devs) == 0 && c.Hist == nil {
 		s += " default delivery"
 	}
 	return s
@@ -499,6 +520,8 @@ type c11World struct {
 	delivered atomic.Int64
 	copies    int // repeated deliveries handed over
 	earlyR2   int // round 2 broadcasts handed to a recipient that had not finished round 1
+	copiesR1  int // hist: copies handed to a recipient that had not finished round 1
+	copiesR2  int // hist: copies handed to a recipient that had finished round 1
 	down      bool
 
 	drops0      int64 // conc: dedup decisions logged before this execution
@@ -597,14 +620,20 @@ func (w *c11World) deliver(p *c11Pkt) {
 
 // note counts what is handed over (before the delivery).
 func (w *c11World) note(it c11Item, to int) {
+	inRound1 := w.net.get(c11R2Cast, to, (to+1)%w.c.N) == nil // the recipient has not broadcast its own round 2 message
 	if it.Copy {
 		w.copies++
+		if w.c.Hist != nil && inRound1 {
+			w.copiesR1++
+		} else if w.c.Hist != nil {
+			w.copiesR2++
+		}
 	}
 	if !w.started[to] {
 		w.buffered++
 	}
-	if it.Kind == c11R2Cast && w.net.get(c11R2Cast, to, (to+1)%w.c.N) == nil {
-		w.earlyR2++ // the recipient has not broadcast its own round 2 message: it is still in round 1
+	if it.Kind == c11R2Cast && inRound1 {
+		w.earlyR2++
 	}
 }
 
@@ -687,6 +716,7 @@ func (w *c11World) finish() c11Outcome {
 	w.shutdown()
 	out.delivered = int(w.delivered.Load())
 	out.copies, out.earlyR2, out.buffered = w.copies, w.earlyR2, w.buffered
+	out.copiesR1, out.copiesR2 = w.copiesR1, w.copiesR2
 	w.net.mu.Lock()
 	out.netOdd = w.net.unclassified + w.net.resent
 	w.net.mu.Unlock()
@@ -849,6 +879,265 @@ func c11ConcFixed(c c11Case) (out c11Outcome) {
 	return out
 }
 
+// ---- "hist": cross-round delivery histories of one victim recipient ------------------------------------------
+
+// c11Hist is the written-out arrival list of the victim To: every one of its 3(n-1) incoming messages exactly
+// once without the Copy mark (the first delivery) and any number of copies, each after its first delivery.
+type c11Hist struct {
+	To    int       `json:"to"`
+	Order string    `json:"first_delivery_order"` // family of the first-delivery order (glued|p2pfirst|fifo|perm); List is what runs
+	List  []c11Item `json:"arrival_list"`
+}
+
+func c11Copies(l []c11Item) (k int) {
+	for _, it := range l {
+		if it.Copy {
+			k++
+		}
+	}
+	return k
+}
+
+func c11HistValid(n int, h *c11Hist) error {
+	if h.To < 0 || h.To >= n {
+		return fmt.Errorf("bad history: victim %d of %d nodes", h.To, n)
+	}
+	first := map[[2]int]bool{}
+	for _, it := range h.List {
+		k := [2]int{it.Kind, it.From}
+		switch {
+		case it.Kind < c11R1Cast || it.Kind > c11R2Cast || it.From < 0 || it.From >= n || it.From == h.To:
+			return fmt.Errorf("bad history: entry %+v", it)
+		case it.Copy && !first[k]:
+			return fmt.Errorf("bad history: %v before the first delivery of that message", it)
+		case !it.Copy && first[k]:
+			return fmt.Errorf("bad history: %v delivered a first time twice", it)
+		}
+		first[k] = true
+	}
+	if len(first) != 3*(n-1) {
+		return fmt.Errorf("bad history: %d of %d messages", len(first), 3*(n-1))
+	}
+	return nil
+}
+
+// c11Merges: every interleaving of the streams; a stream is a sequence of blocks, a block stays together.
+func c11Merges(streams [][][]c11Item) [][]c11Item {
+	var (
+		out [][]c11Item
+		cur []c11Item
+		pos = make([]int, len(streams))
+		rec func()
+	)
+	rec = func() {
+		done := true
+		for s := range streams {
+			if pos[s] == len(streams[s]) {
+				continue
+			}
+			done = false
+			l := len(cur)
+			cur = append(cur, streams[s][pos[s]]...)
+			pos[s]++
+			rec()
+			pos[s]--
+			cur = cur[:l]
+		}
+		if done {
+			out = append(out, append([]c11Item(nil), cur...))
+		}
+	}
+	rec()
+	return out
+}
+
+// c11HistOrders: the first-delivery orders of a family for victim `to`.
+//
+//	glued    – every interleaving of the senders' streams [round 1 broadcast + its p2p shares directly after it, round 2 broadcast]
+//	p2pfirst – all p2p shares (sender order), then every interleaving of the streams [round 1 broadcast, round 2 broadcast]
+//	fifo     – every interleaving of the streams [round 1 broadcast, round 1 p2p shares, round 2 broadcast]
+//	perm     – every permutation of the 3(n-1) messages
+func c11HistOrders(n, to int, fam string) [][]c11Item {
+	var (
+		streams [][][]c11Item
+		prefix  []c11Item
+	)
+	for s := 0; s < n; s++ {
+		if s == to {
+			continue
+		}
+		r1c, r1p, r2c := c11Item{Kind: c11R1Cast, From: s}, c11Item{Kind: c11R1P2P, From: s}, c11Item{Kind: c11R2Cast, From: s}
+		switch fam {
+		case "glued":
+			streams = append(streams, [][]c11Item{{r1c, r1p}, {r2c}})
+		case "p2pfirst":
+			prefix = append(prefix, r1p)
+			streams = append(streams, [][]c11Item{{r1c}, {r2c}})
+		case "fifo":
+			streams = append(streams, [][]c11Item{{r1c}, {r1p}, {r2c}})
+		case "perm":
+			streams = append(streams, [][]c11Item{{r1c}}, [][]c11Item{{r1p}}, [][]c11Item{{r2c}})
+		default:
+			return nil
+		}
+	}
+	out := c11Merges(streams)
+	for i := range out {
+		out[i] = append(append([]c11Item(nil), prefix...), out[i]...)
+	}
+	return out
+}
+
+// c11HistLists: the first-delivery order itself and every list with 1..k copies (exact: only those with exactly
+// k), each copy at any position after the first delivery of its message; a list that arises in several ways is
+// returned once. Options (substrings of opts): notail = no copy after the last first delivery; castsonly = only
+// broadcasts are copied; onesender = all copies of a list are broadcasts of one sender (every sender in turn).
+func c11HistLists(order []c11Item, k int, exact bool, opts string) [][]c11Item {
+	notail, castsonly, onesender := strings.Contains(opts, "notail"), strings.Contains(opts, "castsonly"), strings.Contains(opts, "onesender")
+	sel := []int{-1}
+	if onesender {
+		sel = nil
+		seenS := map[int]bool{}
+		for _, it := range order {
+			if !seenS[it.From] {
+				seenS[it.From] = true
+				sel = append(sel, it.From)
+			}
+		}
+		sort.Ints(sel)
+	}
+	seen := map[string]bool{c11ListKey(order): true}
+	var out [][]c11Item
+	if !exact || k == 0 {
+		out = append(out, order)
+	}
+	for _, only := range sel {
+		level := [][]c11Item{order}
+		for j := 1; j <= k; j++ {
+			var next [][]c11Item
+			for _, l := range level {
+				last := 0
+				for i, it := range l {
+					if !it.Copy {
+						last = i
+					}
+				}
+				for i, it := range l {
+					if it.Copy || ((castsonly || onesender) && it.Kind == c11R1P2P) || (only >= 0 && it.From != only) {
+						continue
+					}
+					hi := len(l)
+					if notail {
+						hi = last // inserted at an index <= last: before the last first delivery
+					}
+					cp := it
+					cp.Copy = true
+					for p := i + 1; p <= hi; p++ {
+						nl := make([]c11Item, 0, len(l)+1)
+						nl = append(append(append(nl, l[:p]...), cp), l[p:]...)
+						key := c11ListKey(nl)
+						if seen[key] {
+							continue
+						}
+						seen[key] = true
+						next = append(next, nl)
+						if !exact || j == k {
+							out = append(out, nl)
+						}
+					}
+				}
+			}
+			level = next
+		}
+	}
+	return out
+}
+
+// c11HistStats: what a history contains (static, from the list) - the non-vacuity counters of the hist dimensions.
+func c11HistStats(n int, h *c11Hist) map[string]int {
+	st := map[string]int{}
+	type sender struct {
+		r1c, r2, r1AfterR2, r2AfterThat bool
+		copies                          int
+	}
+	snd := make([]sender, n)
+	firstLeft := map[[2]int]bool{} // first deliveries still outstanding
+	for _, it := range h.List {
+		if !it.Copy {
+			firstLeft[[2]int{it.Kind, it.From}] = true
+		}
+	}
+	copies := 0
+	for _, it := range h.List {
+		s := &snd[it.From]
+		if !it.Copy {
+			delete(firstLeft, [2]int{it.Kind, it.From})
+			switch it.Kind {
+			case c11R1Cast:
+				s.r1c = true
+			case c11R2Cast:
+				s.r2 = true
+				if !s.r1c {
+					st["round2_cast_first_delivered_before_same_senders_round1_cast"]++
+				}
+			}
+			continue
+		}
+		copies++
+		s.copies++
+		switch it.Kind {
+		case c11R1P2P:
+			st["copies_of_p2p_shares"]++
+		default:
+			st["copies_of_broadcasts"]++
+		}
+		if it.Kind != c11R2Cast && s.r2 {
+			st["round1_message_again_after_same_senders_round2_cast"]++
+			if it.Kind == c11R1Cast {
+				s.r1AfterR2 = true
+			}
+		}
+		if it.Kind == c11R2Cast {
+			st["round2_cast_again"]++
+			if s.r1AfterR2 {
+				s.r2AfterThat = true
+			}
+		}
+		// what the victim still waits for when the copy arrives
+		var r1Left, r2Left [][2]int
+		for k := range firstLeft {
+			if k[0] == c11R2Cast {
+				r2Left = append(r2Left, k)
+			} else {
+				r1Left = append(r1Left, k)
+			}
+		}
+		switch {
+		case len(r1Left) == 1 && r1Left[0][0] == c11R1Cast && r1Left[0][1] != it.From:
+			st["copy_while_victim_waits_only_for_another_peers_round1_cast"]++
+		case len(r1Left) == 0 && len(r2Left) == 1 && r2Left[0][1] != it.From:
+			st["copy_while_victim_waits_only_for_another_peers_round2_cast"]++
+		}
+	}
+	two := 0
+	for i := range snd {
+		if snd[i].copies > 0 {
+			two++
+		}
+		if snd[i].r1AfterR2 {
+			st["lists_with_r1_r2_r1_of_one_sender"]++
+		}
+		if snd[i].r2AfterThat {
+			st["lists_with_r1_r2_r1_r2_of_one_sender"]++
+		}
+	}
+	if two >= 2 {
+		st["lists_with_copies_of_two_senders"]++
+	}
+	st[fmt.Sprintf("lists_with_%d_copies", copies)]++
+	return st
+}
+
 // ---- accounting ------------------------------------------------------------------------------------------------
 
 var c11Digits = regexp.MustCompile(`[0-9]+`)
@@ -867,6 +1156,8 @@ func c11ErrClass(err error) string {
 
 func (c c11Case) tpFamily() string {
 	switch {
+	case c.Hist != nil:
+		return "hist-" + c.Hist.Order
 	case len(c.Devs) == 0:
 		return "default"
 	case len(c.Devs) == 1:
@@ -915,8 +1206,11 @@ func (s *c11State) classifyTP(c c11Case, out c11Outcome) bool {
 		// legal under a deviation and only counted. Under the default delivery it means the harness is broken.
 		r.Eval(c.cfg() + ":tp-" + fam + ":" + bad)
 		r.Outcome("tp-" + bad)
-		if len(c.Devs) == 0 {
+		if len(c.Devs) == 0 && c.Hist == nil {
 			r.NotExhaustive(fmt.Sprintf("default delivery over the production transport did not succeed (%s) in case [%v]", bad, c))
+		}
+		if c.Hist != nil {
+			r.Count("tp_hist_ceremonies_not_ok", 1)
 		}
 		return false
 	}
@@ -931,6 +1225,18 @@ func (s *c11State) classifyTP(c c11Case, out c11Outcome) bool {
 	}
 	if out.buffered > 0 {
 		r.Count("tp_ceremonies_ok_with_late_starter", 1)
+	}
+	if c.Hist != nil {
+		// non-vacuity of the hist dimensions: what the histories that ran to a judged end contained
+		r.Count("tp_hist_ceremonies_ok", 1)
+		r.Count("tp_hist_ceremonies_ok_order_"+c.Hist.Order, 1)
+		r.Count("tp_hist_ceremonies_ok_n"+fmt.Sprint(c.N), 1)
+		r.Count("tp_hist_duplicates_dropped_by_real_dedup", out.dupDrops)
+		r.Count("tp_hist_copies_handed_over_while_victim_in_round1", out.copiesR1)
+		r.Count("tp_hist_copies_handed_over_after_victim_left_round1", out.copiesR2)
+		for k, v := range c11HistStats(c.N, c.Hist) {
+			r.Count("tp_hist_"+k, v)
+		}
 	}
 	return true
 }
@@ -1047,8 +1353,15 @@ func c11SingleDevs(to int, l []c11Item, ops string) []c11Dev {
 
 type c11TPUnit struct {
 	N, T, V, Base int
-	Fam           string // default | dup | swap | late | conc | pair-same | pair-cross
+	Fam           string // default | dup | swap | late | conc | pair-same | pair-cross | hist
 	To, To2       int
+	// hist: first-delivery order family, number of copies (Exact: exactly K, else 0..K), options, and the part of
+	// the first-delivery orders this unit takes (order index mod Chunks == Chunk)
+	Ord           string
+	K             int
+	Exact         bool
+	Opt           string
+	Chunk, Chunks int
 }
 
 // c11TPCases returns the cases of a unit.
@@ -1092,6 +1405,17 @@ func c11TPCases(u c11TPUnit) []c11Case {
 					seen[k] = true
 					cases = append(cases, mk("pair", u.Base, d1, d2))
 				}
+			}
+		}
+	case "hist":
+		for oi, order := range c11HistOrders(u.N, u.To, u.Ord) {
+			if u.Chunks > 1 && oi%u.Chunks != u.Chunk {
+				continue
+			}
+			for _, l := range c11HistLists(order, u.K, u.Exact, u.Opt) {
+				c := mk("hist", 0)
+				c.Hist = &c11Hist{To: u.To, Order: u.Ord, List: l}
+				cases = append(cases, c)
 			}
 		}
 	case "pair-cross":
@@ -1164,6 +1488,47 @@ func c11TPUnits(thorough bool) []c11TPUnit {
 			add(5, t, 1, "dup swap late")
 		}
 	}
+	// hist: one victim per ceremony (every node in turn unless victims are named); units of roughly 120 ceremonies
+	// (whole first-delivery orders)
+	hist := func(n, t, v int, ord string, k int, exact bool, opt string, victims ...int) {
+		orders := c11HistOrders(n, 0, ord)
+		if len(orders) == 0 {
+			return
+		}
+		per := len(c11HistLists(orders[0], k, exact, opt)) // the same for every order up to a few lists (castsonly, onesender)
+		chunks := (len(orders)*per + 119) / 120
+		if chunks > len(orders) {
+			chunks = len(orders)
+		}
+		if chunks < 1 {
+			chunks = 1
+		}
+		if len(victims) == 0 {
+			victims = c11Identity(n)
+		}
+		for _, to := range victims {
+			for ch := 0; ch < chunks; ch++ {
+				us = append(us, c11TPUnit{N: n, T: t, V: v, Fam: "hist", To: to, Ord: ord, K: k, Exact: exact, Opt: opt, Chunk: ch, Chunks: chunks})
+			}
+		}
+	}
+	if !thorough {
+		hist(3, 2, 1, "glued", 2, false, "notail")
+		hist(3, 2, 1, "p2pfirst", 2, false, "notail castsonly")
+	} else {
+		hist(3, 2, 1, "fifo", 2, false, "notail") // contains glued
+		hist(3, 2, 1, "p2pfirst", 2, false, "notail")
+		hist(3, 2, 1, "p2pfirst", 3, true, "notail castsonly")
+		// the large products for ONE victim only (node 0), to stay inside the time budget of the tier
+		hist(3, 2, 1, "perm", 1, false, "notail castsonly", 0)
+		for _, tv := range [][2]int{{3, 1}, {2, 2}} {
+			hist(3, tv[0], tv[1], "glued", 2, false, "notail", 0)
+			hist(3, tv[0], tv[1], "p2pfirst", 2, false, "notail castsonly", 0)
+		}
+		hist(4, 3, 1, "glued", 1, false, "notail", 0)
+		hist(4, 3, 1, "p2pfirst", 1, false, "notail castsonly", 0)
+		hist(4, 2, 1, "p2pfirst", 2, true, "notail onesender", 0)
+	}
 	return us
 }
 
@@ -1203,6 +1568,9 @@ func c11PartTwo(st *c11State) {
 			}
 		}
 		for _, u := range units {
+			if p := os.Getenv("VERIF_C11_PART"); (p == "hist" && u.Fam != "hist") || (p == "nohist" && u.Fam == "hist") {
+				continue // developer knob (the run is marked as capped): only / all but the hist family
+			}
 			if !r.Mine() {
 				continue
 			}
@@ -1221,6 +1589,10 @@ func c11PartTwo(st *c11State) {
 				}
 				if st.tpSampled < 2 && len(c.Devs) > 0 && u.Fam != "conc" {
 					st.tpSampled++
+					r.Sample(map[string]any{"case": c, "meaning": c.String()})
+				}
+				if st.histSampled < 1 && c.Hist != nil && c11Copies(c.Hist.List) == 2 {
+					st.histSampled++
 					r.Sample(map[string]any{"case": c, "meaning": c.String()})
 				}
 			}
@@ -1279,4 +1651,38 @@ func TestVerifRaceC11(t *testing.T) {
 		}
 	}
 	t.Logf("race pass: %d ceremonies with a concurrently repeated delivery completed, %d did not", ok, bad)
+}
+
+// TestVerifC11HistSizes prints the sizes of the hist products of both tiers (no ceremony is run; not part of the check).
+func TestVerifC11HistSizes(t *testing.T) {
+	for _, thorough := range []bool{false, true} {
+		type key struct {
+			N, T, V, K int
+			Ord, Opt   string
+			Exact      bool
+		}
+		sizes, units, orders := map[key]int{}, map[key]int{}, map[key]int{}
+		var keys []key
+		total, cost := 0, 0
+		for _, u := range c11TPUnits(thorough) {
+			if u.Fam != "hist" {
+				continue
+			}
+			k := key{u.N, u.T, u.V, u.K, u.Ord, u.Opt, u.Exact}
+			if _, ok := sizes[k]; !ok {
+				keys = append(keys, k)
+				orders[k] = len(c11HistOrders(u.N, 0, u.Ord))
+			}
+			n := len(c11TPCases(u))
+			sizes[k] += n
+			units[k]++
+			total += n
+			cost += u.cost()
+		}
+		for _, k := range keys {
+			t.Logf("thorough=%v n=%d t=%d v=%d %s k=%d exact=%v [%s]: %d first-delivery orders, %d ceremonies (all victims of the tier) in %d units",
+				thorough, k.N, k.T, k.V, k.Ord, k.K, k.Exact, k.Opt, orders[k], sizes[k], units[k])
+		}
+		t.Logf("thorough=%v: %d hist ceremonies, cost units %d", thorough, total, cost)
+	}
 }
